@@ -328,6 +328,7 @@ impl Check for C19 {
     fn assumptions(&self) -> Vec<&'static str> {
         vec![
             "10 virtual s bound for contacting listed peers after the first good reply and for answering a dial-in handshake",
+            "a client whose last connection ended, with no candidate address left and pieces missing, announces again within 120 virtual s (how soon is its own business; rdest does it at once)",
             "'the client stopped announcing' = no announce in flight and none for longer than max(12 s, 3 x the longest pause the client itself made after a failed announce); the retry delay is not fixed by the statement",
             "the 'any reply body parses without panic' half is sampled only through this generator",
             "the number of peers dialled is not fixed by the statement (the client only fills free connection slots, and how many it has is its own business): of k distinct listed peers min(k, 5) must be dialled when the client is interested in no connection at the reply, min(k, 2) when in 1-3, none otherwise",
@@ -359,6 +360,7 @@ impl Check for C19 {
         let mut listed: BTreeSet<String> = BTreeSet::new();
         let mut first_good: Option<(u64, u64, Vec<String>)> = None;
         let mut failures_seen = 0u64;
+        let mut last_reply_empty_good = false;
         let mut dials: Vec<(u64, String)> = Vec::new();
         for e in &v.out.entries {
             match &e.ev {
@@ -367,10 +369,13 @@ impl Check for C19 {
                         for a in &l {
                             listed.insert(a.clone());
                         }
-                        if first_good.is_none() {
+                        // a well-formed reply that lists nobody usable is not "the good one" yet
+                        last_reply_empty_good = l.is_empty();
+                        if first_good.is_none() && !l.is_empty() {
                             first_good = Some((e.seq, e.t_ms, l));
                         }
                     } else {
+                        last_reply_empty_good = false;
                         failures_seen += 1;
                         let _ = kind;
                     }
@@ -451,12 +456,63 @@ impl Check for C19 {
                 let longest_pause = rep.iter().zip(ann.iter().skip(1)).map(|(r, a)| a.saturating_sub(*r)).max().unwrap_or(0);
                 let quiet_since = rep.last().cloned().unwrap_or(0);
                 let stopped = !in_flight && v.out.end_ms.saturating_sub(quiet_since) > (3 * longest_pause).max(12_000);
-                if has_good && stopped {
+                // (after a reply that listed nobody the client may sit and wait; what it owes then
+                // is checked by the re-announce rule below)
+                if has_good && stopped && !last_reply_empty_good {
                     vd.fail(
                         "C19",
                         "C19.never-reaches-good-reply",
                         format!("after {} failed announces the client stopped announcing: the good reply scripted as announce #{} was never fetched in {} ms", failures_seen, fails.len(), v.out.end_ms),
                         last,
+                    );
+                }
+            }
+        }
+        // T2b: a client that has just lost its last connection, has no addresses left to try and
+        // still lacks pieces asks the tracker again (that is how a later good reply is reached)
+        {
+            let good_with_peers: Vec<usize> = plan
+                .tracker
+                .steps
+                .iter()
+                .enumerate()
+                .filter(|(_, (_, s))| matches!(s, TrackerStep::Good { peers, .. } if !peers.is_empty()))
+                .map(|(i, _)| i)
+                .collect();
+            let mut announces: Vec<u64> = Vec::new();
+            let mut replies = 0usize;
+            let mut pending_kill: Option<(u64, u64)> = None;
+            let mut obligations: Vec<(u64, u64, usize)> = Vec::new();
+            for e in &v.out.entries {
+                match &e.ev {
+                    Ev::Announce { .. } => announces.push(e.t_ms),
+                    Ev::TrackerReply { .. } => replies += 1,
+                    Ev::KillReq { .. } => pending_kill = Some((e.seq, e.t_ms)),
+                    Ev::Snapshot(s) => {
+                        if let Some((seq, t)) = pending_kill.take() {
+                            let lacking = s.status.iter().any(|x| *x != -1);
+                            let unfetched_good = good_with_peers.iter().any(|i| *i >= replies);
+                            let in_flight = announces.len() > replies;
+                            if s.peers.is_empty() && s.candidates == 0 && lacking && unfetched_good && !in_flight {
+                                obligations.push((seq, t, announces.len()));
+                            }
+                        }
+                    }
+                    _ => {}
+                }
+            }
+            for (seq, t, had) in obligations {
+                vd.probe("last_connection_lost_without_candidates");
+                if v.out.end_ms < t + 120_000 {
+                    continue;
+                }
+                let again = announces.iter().skip(had).any(|a| *a >= t && *a <= t + 120_000);
+                if !again {
+                    vd.fail(
+                        "C19",
+                        "C19.no-reannounce",
+                        format!("the last connection ended at t={} ms with no address left to try and pieces missing, but the tracker was not asked again within 120 s (a good reply is still on offer)", t),
+                        seq,
                     );
                 }
             }
